@@ -16,7 +16,9 @@ import (
 	"google.golang.org/genproto/googleapis/api/annotations"
 	"google.golang.org/grpc"
 	"google.golang.org/grpc/codes"
+	"google.golang.org/grpc/metadata"
 	"google.golang.org/grpc/status"
+	"google.golang.org/protobuf/encoding/protojson"
 	"google.golang.org/protobuf/proto"
 	"google.golang.org/protobuf/reflect/protoreflect"
 	"google.golang.org/protobuf/reflect/protoregistry"
@@ -89,6 +91,36 @@ type recorder struct {
 	// replies built from its own long-lived buffers / messages (returned as
 	// they are, not copied). A nil result falls back to the planted reply.
 	replyFn func(md protoreflect.MethodDescriptor, in proto.Message) proto.Message
+	// hdrMode: what the handler does with response metadata before it
+	// returns: "" nothing, "set-header" grpc.SetHeader, "send-header"
+	// grpc.SendHeader (headers sent early), "send-header-empty",
+	// "set-header+send-header", "set-trailer".
+	hdrMode string
+}
+
+func (rc *recorder) setHdrMode(m string) {
+	rc.mu.Lock()
+	rc.hdrMode = m
+	rc.mu.Unlock()
+}
+
+var handlerModes = []string{"", "set-header", "send-header", "send-header-empty", "set-header+send-header", "set-trailer"}
+
+func applyHdrMode(ctx context.Context, mode string) {
+	md := metadata.Pairs("x-vf-meta", "one", "x-vf-meta", "two")
+	switch mode {
+	case "set-header":
+		grpc.SetHeader(ctx, md) //nolint:errcheck
+	case "send-header":
+		grpc.SendHeader(ctx, md) //nolint:errcheck
+	case "send-header-empty":
+		grpc.SendHeader(ctx, nil) //nolint:errcheck
+	case "set-header+send-header":
+		grpc.SetHeader(ctx, metadata.Pairs("x-vf-first", "1")) //nolint:errcheck
+		grpc.SendHeader(ctx, md)                               //nolint:errcheck
+	case "set-trailer":
+		grpc.SetTrailer(ctx, md) //nolint:errcheck
+	}
 }
 
 func (rc *recorder) take() []call {
@@ -110,7 +142,11 @@ func (rc *recorder) Unary(ctx context.Context, md protoreflect.MethodDescriptor,
 	rc.calls = append(rc.calls, call{method: vschema.FullMethod(md), msg: cloneMsg(in)})
 	rep := rc.reply
 	fn := rc.replyFn
+	hm := rc.hdrMode
 	rc.mu.Unlock()
+	if hm != "" {
+		applyHdrMode(ctx, hm)
+	}
 	if fn != nil {
 		if m := fn(md, in); m != nil {
 			return m, nil
@@ -227,6 +263,7 @@ func (p *plan) bodyPath() string {
 type env struct {
 	mux      *larking.Mux
 	rec      *recorder
+	kind     string            // "" = default options, muxCustom = two extra CodecOption codecs
 	regErr   map[string]string // rule ID -> registration error text
 	regPanic map[string]*mon.PanicInfo
 }
@@ -248,7 +285,7 @@ func nextSeq() int {
 // service of its own so that a registration failure is attributed to it and
 // does not take other rules down. The descriptor construction error is a
 // harness error; registration outcomes are recorded per rule.
-func buildDynamic(rules []RuleSpec) (*env, error) {
+func buildDynamic(rules []RuleSpec, kind string) (*env, error) {
 	seq := nextSeq()
 	f := &vschema.File{Path: fmt.Sprintf("vf/tc%d.proto", seq), Pkg: fmt.Sprintf("vf.tc%d", seq)}
 	main := vschema.Service{Name: "Main"}
@@ -282,11 +319,11 @@ func buildDynamic(rules []RuleSpec) (*env, error) {
 	if err != nil {
 		return nil, err
 	}
-	mux, err := larking.NewMux(larking.FilesOption(reg))
+	mux, err := larking.NewMux(append([]larking.MuxOption{larking.FilesOption(reg)}, muxOptions(kind)...)...)
 	if err != nil {
 		return nil, err
 	}
-	e := &env{mux: mux, rec: &recorder{}, regErr: map[string]string{}, regPanic: map[string]*mon.PanicInfo{}}
+	e := &env{mux: mux, rec: &recorder{}, kind: kind, regErr: map[string]string{}, regPanic: map[string]*mon.PanicInfo{}}
 	for _, o := range owners {
 		sd := fd.Services().ByName(protoreflect.Name(o.svc))
 		gsd := vschema.ServiceDesc(sd, e.rec)
@@ -314,12 +351,12 @@ var testpbServices = []string{"larking.testpb.Messaging", "larking.testpb.Files"
 
 // buildTestpb registers the real larking.testpb services (their compiled-in
 // google.api.http annotations) with the recording handler.
-func buildTestpb() (*env, error) {
-	mux, err := larking.NewMux()
+func buildTestpb(kind string) (*env, error) {
+	mux, err := larking.NewMux(muxOptions(kind)...)
 	if err != nil {
 		return nil, err
 	}
-	e := &env{mux: mux, rec: &recorder{}, regErr: map[string]string{}, regPanic: map[string]*mon.PanicInfo{}}
+	e := &env{mux: mux, rec: &recorder{}, kind: kind, regErr: map[string]string{}, regPanic: map[string]*mon.PanicInfo{}}
 	for _, name := range testpbServices {
 		d, err := protoregistry.GlobalFiles.FindDescriptorByName(protoreflect.FullName(name))
 		if err != nil {
@@ -339,11 +376,119 @@ func buildTestpb() (*env, error) {
 }
 
 // envFor builds the environment needed to replay a single rule.
-func envFor(rule RuleSpec) (*env, error) {
+func envFor(rule RuleSpec, kind string) (*env, error) {
 	if rule.Svc != "" {
-		return buildTestpb()
+		return buildTestpb(kind)
 	}
-	return buildDynamic([]RuleSpec{rule})
+	return buildDynamic([]RuleSpec{rule}, kind)
+}
+
+// ------------------------------------------------------------ extra codecs
+
+// muxCustom is a mux configured with two additional media types through
+// larking.CodecOption. Both codecs frame their output with a magic prefix so
+// that the independent decoder can tell that the codec named by the
+// Content-Type really produced the body.
+const (
+	muxCustom     = "custom-codecs"
+	ctAltJSON     = "application/x-vf-json"
+	ctAltProto    = "application/x-vf-proto"
+	altJSONMagic  = "//vf-json\n"
+	altProtoMagic = "VFP1"
+)
+
+var builtinTypes = []string{"application/json", "application/octet-stream", "application/protobuf"}
+
+func muxOptions(kind string) []larking.MuxOption {
+	if kind == muxCustom {
+		return []larking.MuxOption{larking.CodecOption(ctAltJSON, altJSONCodec{}), larking.CodecOption(ctAltProto, altProtoCodec{})}
+	}
+	return nil
+}
+
+// mediaTypes are the media types with a registered codec, sorted.
+func (e *env) mediaTypes() []string { return mediaTypesOf(e.kind) }
+
+func mediaTypesOf(kind string) []string {
+	if kind == muxCustom {
+		return []string{"application/json", "application/octet-stream", "application/protobuf", ctAltJSON, ctAltProto}
+	}
+	return builtinTypes
+}
+
+func isCustomType(ct string) bool { return ct == ctAltJSON || ct == ctAltProto }
+
+type altJSONCodec struct{}
+
+func (altJSONCodec) Name() string                            { return "vfjson" }
+func (c altJSONCodec) Marshal(v interface{}) ([]byte, error) { return c.MarshalAppend(nil, v) }
+func (altJSONCodec) MarshalAppend(b []byte, v interface{}) ([]byte, error) {
+	m, ok := v.(proto.Message)
+	if !ok {
+		return nil, fmt.Errorf("vfjson: not a proto message: %T", v)
+	}
+	return protojson.MarshalOptions{UseProtoNames: true}.MarshalAppend(append(b, altJSONMagic...), m)
+}
+func (altJSONCodec) Unmarshal(data []byte, v interface{}) error {
+	m, ok := v.(proto.Message)
+	if !ok {
+		return fmt.Errorf("vfjson: not a proto message: %T", v)
+	}
+	return altJSONDecode(data, m)
+}
+
+func altJSONDecode(data []byte, m proto.Message) error {
+	if !strings.HasPrefix(string(data), altJSONMagic) {
+		return fmt.Errorf("vfjson: missing magic prefix")
+	}
+	return protojson.Unmarshal(data[len(altJSONMagic):], m)
+}
+
+type altProtoCodec struct{}
+
+func (altProtoCodec) Name() string                            { return "vfproto" }
+func (c altProtoCodec) Marshal(v interface{}) ([]byte, error) { return c.MarshalAppend(nil, v) }
+func (altProtoCodec) MarshalAppend(b []byte, v interface{}) ([]byte, error) {
+	m, ok := v.(proto.Message)
+	if !ok {
+		return nil, fmt.Errorf("vfproto: not a proto message: %T", v)
+	}
+	return proto.MarshalOptions{}.MarshalAppend(append(b, altProtoMagic...), m)
+}
+func (altProtoCodec) Unmarshal(data []byte, v interface{}) error {
+	m, ok := v.(proto.Message)
+	if !ok {
+		return fmt.Errorf("vfproto: not a proto message: %T", v)
+	}
+	return altProtoDecode(data, m)
+}
+
+func altProtoDecode(data []byte, m proto.Message) error {
+	if !strings.HasPrefix(string(data), altProtoMagic) {
+		return fmt.Errorf("vfproto: missing magic prefix")
+	}
+	return proto.Unmarshal(data[len(altProtoMagic):], m)
+}
+
+// decodeBy decodes a payload with the codec a media type names (the
+// harness's own decoders). known is false when no codec of a mux of the
+// given kind has that name.
+func decodeBy(kind, ct string, payload []byte, m proto.Message) (codec string, known bool, err error) {
+	switch ct {
+	case "application/json":
+		return "json", true, protojson.Unmarshal(payload, m)
+	case "application/protobuf", "application/octet-stream":
+		return "protobuf", true, proto.Unmarshal(payload, m)
+	case ctAltJSON:
+		if kind == muxCustom {
+			return "x-vf-json", true, altJSONDecode(payload, m)
+		}
+	case ctAltProto:
+		if kind == muxCustom {
+			return "x-vf-proto", true, altProtoDecode(payload, m)
+		}
+	}
+	return "", false, nil
 }
 
 // ------------------------------------------------------------ rule catalogue
